@@ -39,8 +39,11 @@ bool g_trace = false;
 std::set<std::string> g_hot;  // labels (prefixes before '/') known to crash on the pinned tree
 bool isHot(const std::string& label) {
   if (g_hot.empty()) return false;
-  std::string head = label.substr(0, label.find('/'));
-  return g_hot.count(head) || g_hot.count(label);
+  for (size_t p = label.find('/'); ; p = label.find('/', p + 1)) {
+    if (g_hot.count(label.substr(0, p))) return true;
+    if (p == std::string::npos) break;
+  }
+  return false;
 }
 
 std::string demangle(const char* n) {
@@ -196,8 +199,8 @@ void consume(Obs& o, const Manifold& m, size_t numTri) {
   int steps = o.r.range(1, 2);
   for (int s = 0; s < steps; s++) {
     int k = (int)o.r.below(kNumOps);
-    if (k >= 14 && k <= 17 && numTri > 40) k = 0;        // Minkowski scales with the face product
-    if (k == 43 && numTri > 40) k = 1;
+    if (k >= 14 && k <= 17 && numTri > 16) k = 0;        // Minkowski scales with the face product
+    if (k == 43 && numTri > 16) k = 1;
     if ((k == 28 || k == 29 || k == 30 || k == 38) && numTri > 600) k = 2;
     std::string name;
     std::vector<Manifold> outs;
@@ -504,6 +507,35 @@ bool mutateMesh(M& m, const std::string& kind, vh::Rng& r, std::vector<Smoothnes
   return false;
 }
 
+// The mesh field a mutation kind attacks: it is the head of the site label
+// ("mesh:<field>/<kind>/<variant>") so that witnesses of one unvalidated field
+// share a key prefix whatever the concrete mutation and entry point.
+std::string fieldOf(const std::string& kind) {
+  auto has = [&](const char* p) { return kind.rfind(p, 0) == 0; };
+  if (has("vp-") || has("bitflip-vp")) return "vertProperties";
+  if (has("tv-len") || has("tv-remove") || has("tv-empty") || has("tv-double") || has("tv-trunc")) return "triVerts-length";
+  if (has("tv-") || has("bitflip-tv")) return "triVerts-index";
+  if (has("numProp") || has("bitflip-numProp")) return "numProp";
+  if (has("merge") || has("bitflip-merge")) return "merge";
+  if (has("ri-") || has("bitflip-ri") || has("ids-empty") || has("ids-many")) return "runIndex";
+  if (has("ids-") || has("bitflip-ids")) return "runOriginalID";
+  if (has("rt-") || has("bitflip-rt")) return "runTransform";
+  if (has("rf-") || has("bitflip-rf")) return "runFlags";
+  if (has("fid-") || has("bitflip-fid")) return "faceID";
+  if (has("tan-len") || has("tan-half") || has("tan-double") || has("tan-per-tri") || has("tan-add-wrong-len")) return "tangent-length";
+  if (has("tan-") || has("bitflip-tan")) return "tangent-value";
+  if (has("pos-")) return "position";
+  if (has("prop-")) return "property";
+  if (has("tol-")) return "tolerance";
+  if (has("sharp-")) return "sharpenedEdges";
+  return "none";
+}
+std::string meshLabel(const std::string& kinds) {  // "a" or "a+b"
+  size_t plus = kinds.find('+');
+  if (plus == std::string::npos) return "mesh:" + fieldOf(kinds) + "/" + kinds;
+  return "mesh:" + fieldOf(kinds.substr(0, plus)) + "+" + fieldOf(kinds.substr(plus + 1)) + "/" + kinds;
+}
+
 template <class M>
 std::string meshJson(const M& m) {
   vh::J j;
@@ -520,7 +552,7 @@ const char* const kMeshVariants[] = {"ctor64", "ctor32", "from64", "from32", "sm
 template <class M>
 void runMeshVariant(vh::Ctx& c, vh::Rng& r, M m, const std::string& kind, int variant, const std::string& baseName,
                     std::vector<Smoothness> sharp) {
-  std::string label = "mesh:" + kind + "/" + kMeshVariants[variant];
+  std::string label = meshLabel(kind) + "/" + kMeshVariants[variant];
   std::string detail = vh::J().s("base", baseName).s("kind", kind).s("variant", kMeshVariants[variant]).raw("mesh", meshJson(m))
                            .u("nSharpened", sharp.size()).str();
   Obs o{c, r, label, detail};
@@ -568,9 +600,9 @@ void meshMutant(vh::Ctx& c, vh::Rng r, std::vector<Deferred>& hot) {
     bool ok = is64 ? mutateMesh(m64, kind, rm, sharp) : mutateMesh(m32, kind, rm, sharp);
     if (!ok) continue;
     std::string lab = kind;
-    if (!isHot("mesh:" + kind) && r.chance(0.15)) {  // stack a second, non-hot mutation
+    if (!isHot(meshLabel(kind)) && r.chance(0.15)) {  // stack a second, non-hot mutation
       kind2 = kMeshKinds[r.below(kNumMeshKinds)];
-      if (kind2 != kind && kind2 != "none" && !isHot("mesh:" + kind2) && kind2.rfind("sharp-", 0) != 0) {
+      if (kind2 != kind && kind2 != "none" && !isHot(meshLabel(kind2)) && kind2.rfind("sharp-", 0) != 0) {
         // the first mutation may have emptied a vector the second indexes into
         bool sane = is64 ? (m64.numProp > 0 && m64.vertProperties.size() >= m64.numProp && m64.triVerts.size() >= 3)
                          : (m32.numProp > 0 && m32.vertProperties.size() >= m32.numProp && m32.triVerts.size() >= 3);
@@ -582,7 +614,7 @@ void meshMutant(vh::Ctx& c, vh::Rng r, std::vector<Deferred>& hot) {
       if (is64) runMeshVariant(c, rr, m64, lab, variant, name, sharp);
       else runMeshVariant(c, rr, m32, lab, variant, name, sharp);
     };
-    std::string label = "mesh:" + lab + "/" + kMeshVariants[variant];
+    std::string label = meshLabel(lab) + "/" + kMeshVariants[variant];
     if (isHot(label)) { hot.push_back({label, run}); return; }
     run();
     return;
@@ -1056,7 +1088,7 @@ void argMutant(vh::Ctx& c, vh::Rng r, std::vector<Deferred>& hot) {
   std::vector<double> a;
   for (auto& d : op.args) a.push_back(d.typical);
   int nSpecial = r.chance(0.8) ? 1 : (r.chance(0.7) ? 2 : 0);
-  std::string what;
+  std::string what, whatCls;
   std::set<size_t> used;
   for (int s = 0; s < nSpecial && used.size() < op.args.size(); s++) {
     size_t i = r.below(op.args.size());
@@ -1072,10 +1104,12 @@ void argMutant(vh::Ctx& c, vh::Rng r, std::vector<Deferred>& hot) {
       cls = d.cls;
       a[i] = d.v;
     }
-    what += (what.empty() ? "" : "&") + std::string(op.args[i].name) + "=" + cls;
+    what += (what.empty() ? "" : "&") + std::string(op.args[i].name);
+    whatCls += (whatCls.empty() ? "" : "&") + cls;
   }
-  if (what.empty()) what = "typical";
-  std::string label = std::string("arg:") + op.name + "." + what;
+  if (what.empty()) { what = "all"; whatCls = "typical"; }
+  // "arg:<Op>.<arg>/<class>": the head names the argument, the tail the value class
+  std::string label = std::string("arg:") + op.name + "." + what + "/" + whatCls;
   c.count("arg_mutants_generated");
   if (op.resourceBound(a)) {  // valid request that is merely too large: not what C09 is about
     c.count("resource_bound_not_executed");
